@@ -284,6 +284,8 @@ def run(ctx):
     # without dropping, merging or re-ordering entries (aes128 and aes256 share type and id and differ in the key length only)
     from .c19 import check_crypto_algs
     check_crypto_algs(ctx, 'N5')
+    # ... and stays what was configured: no negotiation rearranges the shared proposal objects
+    common.config_not_mutated(ctx, 'N5')
 
     # ---------------------------------------------------------------- N6
     fi = ctx.func(IKESA + '._process_create_child_sa_negotiation_req')
